@@ -1183,15 +1183,41 @@ impl<'a> Iterator for FindNoCaseTextIter<'a> {
                     let beginbytepos = resource
                         .subslice_utf8_offset(text)
                         .expect("bytepos must be valid");
-                    let text = text.to_lowercase();
-                    if let Some(foundbytepos) = text.find(self.fragment.as_str()) {
-                        let endbytepos = foundbytepos + self.fragment.len(); //MAYBE TODO: possible issue if uppercase and lowercase variants have different byte length!
-                        let newbegin = resource
-                            .utf8byte_to_charpos(beginbytepos + foundbytepos)
+                    //the lower-cased copy that is searched, and for every character of the text the
+                    //byte at which its lower-casing begins in that copy (lower-casing may change the
+                    //length of a character, so positions in the copy are no positions in the text)
+                    let mut lowered = String::with_capacity(text.len());
+                    let mut starts: Vec<usize> = Vec::new();
+                    for c in text.chars() {
+                        starts.push(lowered.len());
+                        lowered.extend(c.to_lowercase());
+                    }
+                    starts.push(lowered.len());
+                    let mut found: Option<(usize, usize)> = None;
+                    let mut from = 0;
+                    while let Some(pos) = lowered[from..].find(self.fragment.as_str()) {
+                        let pos = from + pos;
+                        //a match counts when it begins and ends where characters of the text do
+                        if let (Ok(beginchar), Ok(endchar)) = (
+                            starts.binary_search(&pos),
+                            starts.binary_search(&(pos + self.fragment.len())),
+                        ) {
+                            found = Some((beginchar, endchar));
+                            break;
+                        }
+                        from = pos
+                            + lowered[pos..]
+                                .chars()
+                                .next()
+                                .map(|c| c.len_utf8())
+                                .unwrap_or(1);
+                    }
+                    if let Some((beginchar, endchar)) = found {
+                        let begincharpos = resource
+                            .utf8byte_to_charpos(beginbytepos)
                             .expect("utf-8 byte must resolve to valid charpos");
-                        let newend = resource
-                            .utf8byte_to_charpos(beginbytepos + endbytepos)
-                            .expect("utf-8 byte must resolve to valid charpos");
+                        let newbegin = begincharpos + beginchar;
+                        let newend = begincharpos + endchar;
                         //set offset for next run
                         self.offset = Offset {
                             begin: Cursor::BeginAligned(newend),
